@@ -237,6 +237,9 @@ func (a Attr) UnmarshalToType(data []byte) (any, error) {
 		}
 	case AttrTypeInt8:
 		v, err = strconv.Atoi(string(data))
+		if err == nil {
+			err = checkIntRange(v.(int), 8)
+		}
 
 		if a.Nullable {
 			n := int8(v.(int))
@@ -246,6 +249,9 @@ func (a Attr) UnmarshalToType(data []byte) (any, error) {
 		}
 	case AttrTypeInt16:
 		v, err = strconv.Atoi(string(data))
+		if err == nil {
+			err = checkIntRange(v.(int), 16)
+		}
 
 		if a.Nullable {
 			n := int16(v.(int))
@@ -255,6 +261,9 @@ func (a Attr) UnmarshalToType(data []byte) (any, error) {
 		}
 	case AttrTypeInt32:
 		v, err = strconv.Atoi(string(data))
+		if err == nil {
+			err = checkIntRange(v.(int), 32)
+		}
 
 		if a.Nullable {
 			n := int32(v.(int))
@@ -363,6 +372,16 @@ func (a Attr) UnmarshalToType(data []byte) (any, error) {
 	}
 
 	return v, nil
+}
+
+// checkIntRange returns an error if n cannot be represented by a signed integer
+// of the given size in bits.
+func checkIntRange(n int, bits uint) error {
+	if max := 1<<(bits-1) - 1; n > max || n < -max-1 {
+		return errors.New("integer is out of range")
+	}
+
+	return nil
 }
 
 // Rel represents a resource relationship.
